@@ -20,14 +20,36 @@ DTYPES = {"a": str, "b": int, "c": None, "d": None, "e": str}
 PRIMES = [p for p in range(2, 1200) if all(p % q for q in range(2, int(p**0.5) + 1))]
 
 
-def universe(fd, lengths: dict, typed=True):
-    """dict letter -> Dimension with the given number of items."""
+ITEMS_ALT = {
+    "a": ["a1", "a2", "a3", "a4", "a5", "a6", "a7"],
+    "b": [2001, 2002, 2003, 2004, 2005, 2006, 2007],  # consecutive integers (look like positions / years)
+    "c": ["c1", "c2", "c3", "c4", "c5", "c6", "c7"],
+    "d": [1.5, 2.5, 3.5, 4.5, 5.5, 6.5, 7.5],
+    "e": ["e1", "e2", "e3", "e4", "e5", "e6", "e7"],
+}
+
+
+def universe(fd, lengths: dict, typed=True, rng=None):
+    """dict letter -> Dimension with the given number of items.
+    With rng: the items are a random selection in random order from a larger pool, so that within one process the same
+    (name, letter, length) comes with different labels and orders (anything remembered per name/letter/length would show)."""
     out = {}
     for l, n in lengths.items():
         kw = {}
         if typed and DTYPES.get(l) is not None:
             kw["dtype"] = DTYPES[l]
-        out[l] = fd.Dimension(letter=l, name=NAMES[l], items=list(ITEMS[l][:n]), **kw)
+        if rng is None:
+            items = list(ITEMS[l][:n])
+        else:
+            pool = ITEMS_ALT[l] if (l != "b" or rng.random() < 0.6) else [10, 20, 30, 40, 50, 60, 70]
+            if l == "b" and pool is ITEMS_ALT["b"] and rng.random() < 0.5:
+                start = int(rng.integers(0, len(pool) - n + 1))
+                items = pool[start : start + n]  # consecutive run ...
+                if rng.random() < 0.5:
+                    items = [items[j] for j in rng.permutation(n)]  # ... possibly not ascending
+            else:
+                items = [pool[j] for j in rng.permutation(len(pool))[:n]]
+        out[l] = fd.Dimension(letter=l, name=NAMES[l], items=list(items), **kw)
     return out
 
 
@@ -171,6 +193,8 @@ def values_one(regime, rng, shape, layout=False):
         regime = "dyadic"
     if regime == "dyadic":
         return dyadic(rng, shape)
+    if regime == "ints":
+        return rng.integers(-9, 30, size=shape)  # integer dtype
     v = reals(rng, shape)
     if regime == "taint" and v.size:
         v.flat[rng.integers(0, v.size)] = np.nan
